@@ -475,7 +475,17 @@ func checkSensorReaders(c *Ctx, r *Report) {
 		}
 	}
 	if linIf == nil || lisedIf == nil {
-		r.Bad(name+"|classification", ctor.Pos(), "reader selection does not test IsLinear and IsLinearised on the record's linearisation")
+		// the selection is not written as two tests (a table of predicates and constructors, a
+		// helper): ask engine E1 which constructor NewSensorReader enters first when the record's
+		// linearisation is pinned to a member of each class (the classes themselves are decided
+		// by `linearisation-classes`)
+		okDisp, whyDisp := readerDispatch(c, ctor)
+		r.Check(okDisp, name+"|classification", ctor.Pos(), "linearisation 0 → linear reader; 1..11 → linearised reader; anything else → error, no reader", "reader selection does not build the linear reader exactly for IsLinear and the linearised reader exactly for IsLinearised records: "+whyDisp)
+		if okDisp {
+			r.OK(name+"|linear reader", ctor.Pos(), "linear reader only on its class (dispatch evaluated)")
+			r.OK(name+"|linearised reader", ctor.Pos(), "linearised reader only on its class (dispatch evaluated)")
+			r.OK(name+"|unsupported", ctor.Pos(), "unsupported linearisation is an error (dispatch evaluated)")
+		}
 		return
 	}
 	for _, ret := range returnsOf(ctor) {
@@ -731,4 +741,88 @@ func checkSensorReaders(c *Ctx, r *Report) {
 		}
 	})
 	r.Check(okL, c.FnName(lsd)+"|L(linear reading)", lsd.Pos(), "lineariser applied to the linear reader's result", "the linearised reader does not return lineariser.Linearise(linear reading)")
+}
+
+
+// readerDispatch evaluates NewSensorReader with the record's Linearisation pinned: for each
+// representative value, on every feasible path, which of the reader constructors (functions
+// returning a pointer to a type that implements SensorReader) is entered first, and whether an
+// error comes back.
+func readerDispatch(c *Ctx, ctor *ssa.Function) (bool, string) {
+	// producers: module functions whose first result is a pointer to a reader type; the one that
+	// asks the record for its lineariser builds the linearised reader
+	var linP, lsdP *ssa.Function
+	for _, nt := range c.implementors("", "", "SensorReader", "Read") {
+		for _, fn := range c.LibFuncs() {
+			if fn.Signature.Recv() != nil || fn.Parent() != nil || fn.Signature.Results().Len() != 2 {
+				continue
+			}
+			if !isPtrTo(fn.Signature.Results().At(0).Type(), nt) {
+				continue
+			}
+			uses := false
+			rawInstrs(fn, false, func(in ssa.Instruction) {
+				if cc := asCall(in); cc != nil && strings.HasSuffix(calleeName(cc), "ipmi.Linearisation).Lineariser") {
+					uses = true
+				}
+			})
+			if uses {
+				lsdP = fn
+			} else {
+				linP = fn
+			}
+		}
+	}
+	if linP == nil || lsdP == nil || len(ctor.Params) == 0 {
+		return false, "reader constructors not found"
+	}
+	for _, tc := range []struct {
+		k    int64
+		want *ssa.Function
+	}{{0, linP}, {1, lsdP}, {5, lsdP}, {11, lsdP}, {12, nil}, {0x70, nil}, {0xff, nil}} {
+		e := newLenflow(c, 6)
+		good, n := true, 0
+		why := ""
+		e.onEnter = func(st *lfState, callee *ssa.Function) {
+			if callee == linP || callee == lsdP {
+				st.trail = append(st.trail, "enter:"+callee.Name())
+			}
+		}
+		e.onReturn = func(st *lfState, rets []lfVal) {
+			n++
+			var first string
+			for _, t := range st.trail {
+				if strings.HasPrefix(t, "enter:") {
+					first = strings.TrimPrefix(t, "enter:")
+					break
+				}
+			}
+			switch {
+			case tc.want == nil:
+				errNonNil := false
+				if len(rets) == 2 {
+					if ev, ok := rets[1].(vNilable); ok && ev.Nil == 2 {
+						errNonNil = true
+					}
+				}
+				if first != "" || !errNonNil {
+					good, why = false, fmt.Sprintf("linearisation %d: a constructor (%s) is entered or no error is returned", tc.k, first)
+				}
+			case first != tc.want.Name():
+				good, why = false, fmt.Sprintf("linearisation %d: first constructor entered is %q, want %s", tc.k, first, tc.want.Name())
+			}
+		}
+		e.runEntry(ctor, func(fr *lfFrame, st *lfState) {
+			if pv, ok := fr.env[ctor.Params[0]].(vPtr); ok {
+				st.heap[fmt.Sprintf("%d.Linearisation", pv.Obj)] = vInt{E: linConst(tc.k)}
+			}
+		})
+		if e.budgetHit || n == 0 {
+			return false, fmt.Sprintf("linearisation %d: evaluation incomplete", tc.k)
+		}
+		if !good {
+			return false, why
+		}
+	}
+	return true, ""
 }
